@@ -372,13 +372,44 @@ func runC14(c *Ctx) {
 			blk := accept.Block()
 			var reasons []string
 			okShape := true
+			// the conditions under which control enters the accept block, named booleans (`isGood := a || b`) expanded
+			type condT struct {
+				cond  ssa.Value
+				truth bool
+			}
+			var conds []condT
+			var expand func(cond ssa.Value, truth bool, depth int)
+			expand = func(cond ssa.Value, truth bool, depth int) {
+				if ph, isPhi := cond.(*ssa.Phi); isPhi && truth && depth < 3 {
+					for i, e := range ph.Edges {
+						if b, isC := constBool(e); isC {
+							if !b {
+								continue
+							}
+							pp := ph.Block().Preds[i]
+							if pif, ok := terminator(pp).(*ssa.If); ok {
+								expand(pif.Cond, pp.Succs[0] == ph.Block(), depth+1)
+							} else {
+								okShape = false
+							}
+							continue
+						}
+						expand(e, true, depth+1)
+					}
+					return
+				}
+				conds = append(conds, condT{cond, truth})
+			}
 			for _, pr := range blk.Preds {
 				iff, ok := terminator(pr).(*ssa.If)
 				if !ok {
 					okShape = false
 					continue
 				}
-				g := guard{Cond: iff.Cond, Truth: pr.Succs[0] == blk}
+				expand(iff.Cond, pr.Succs[0] == blk, 0)
+			}
+			for _, cd := range conds {
+				g := guard{Cond: cd.cond, Truth: cd.truth}
 				cm, ok := g.asCmp()
 				if !ok {
 					okShape = false
@@ -388,14 +419,15 @@ func runC14(c *Ctx) {
 				if k, isF := loadedField(cm.X); isF && strings.HasSuffix(k, "dns.MsgHdr.Rcode") && cm.Op == token.EQL {
 					if n, ok := constInt(cm.Y); ok && (n == 0 || n == 3) {
 						base := fieldBase(cm.X.(*ssa.UnOp).X)
-						if base == msg {
+						if base == msg || sameLoadedPlace(base, msg) {
 							reasons = append(reasons, fmt.Sprintf("rcode==%d", n))
 							continue
 						}
 					}
 				}
 				// i >= count-1
-				if cm.X == ssa.Value(collect.phi) && cm.Op == token.GEQ {
+				// (inside the loop i < count holds, so i == count-1 says the same)
+				if cm.X == ssa.Value(collect.phi) && (cm.Op == token.GEQ || cm.Op == token.EQL) {
 					if bo, ok := cm.Y.(*ssa.BinOp); ok && bo.Op == token.SUB && bo.X == collect.bound {
 						if n, ok := constInt(bo.Y); ok && n == 1 {
 							reasons = append(reasons, "last")
